@@ -13,3 +13,5 @@ pub mod c17;
 pub mod c07;
 #[cfg(all(kani, feature = "c08"))]
 pub mod c08;
+#[cfg(all(kani, feature = "c06"))]
+pub mod c06;
